@@ -162,6 +162,16 @@ def h_rename_replace(ctx):
                  spec.equiv(w, w.term(r), spec.subst(w.term(u), list(zip(w.zs(ob), w.zs(nb))))))
         w.oblige('let(rename).post: support loses the old identifier',
                  z3.BoolVal(old not in c.support(r)))
+    # several identifiers at once: the substitution is SIMULTANEOUS (a target may
+    # also be a source: swaps, rotations)
+    for multi in ctx.p.get('multi', []):
+        um = w.pred('Um_' + '_'.join(multi), allbits)
+        sub = list()
+        for old, new in multi.items():
+            sub += list(zip(w.zs(w.bits_of([old])), w.zs(w.bits_of([new]))))
+        rm = ctx.call(let, c, dict(multi), um, label='let')
+        w.oblige(f'let({multi}).post: simultaneous substitution of same-typed variables (targets that are also sources)',
+                 spec.equiv(w, w.term(rm), spec.subst(w.term(um), sub)))
     rb = ctx.fn(fol.Context.replace_with_bdd)
     bname = ctx.p['bool']
     u = w.pred('Ub', allbits)
